@@ -155,6 +155,7 @@ type Val struct {
 	StreamVer int
 	Payload   []byte // kind restored: the RESTORE payload
 	TTL     int64  // milliseconds handed to RESTORE / PEXPIRE; 0 = none
+	ExpAt   int64 // absolute expiry (target clock at the entry's first request + TTL), ms; 0 = none
 	Idle    string
 	Freq    string
 }
@@ -163,7 +164,7 @@ type Val struct {
 func (v *Val) Canon() string {
 	var sb strings.Builder
 	sb.WriteString(v.Kind)
-	sb.WriteString(fmt.Sprintf(" ttl=%d", v.TTL))
+	sb.WriteString(fmt.Sprintf(" exp=%d", v.ExpAt))
 	switch v.Kind {
 	case "string":
 		sb.WriteString(" " + hx(v.Str))
@@ -253,7 +254,66 @@ type Target struct {
 	DBs     map[int]map[string]*Val
 	Scripts [][]byte
 	Funcs   []string
-	Errors  []string // replies that were errors other than BUSYKEY
+	Errors  []string // replies that were errors other than BUSYKEY / Bad data format
+	// Now is the target's clock in ms (nil = 0); Tick runs once per request
+	// (the harness lets virtual time pass there)
+	Now  func() int64
+	Tick func()
+	// TickMs is how much the clock advances per request: the replayer reads its clock
+	// once per entry, before the entry's requests, so the absolute expiry a request
+	// establishes is judged from the clock at the entry's first request
+	TickMs int64
+	// Major is the target's major version: RESTORE refuses value types this
+	// version cannot load with "ERR Bad data format" (0 = accepts everything)
+	Major int
+	// BadFormat counts the RESTOREs refused with "Bad data format"
+	BadFormat int
+}
+
+// typeLoadable: can a server of this major version load an RDB value type?
+// 4.x: up to quicklist (14); 5/6: + stream listpacks (15); 7.x: + listpack
+// hash/zset, quicklist 2, stream 2, set listpack, stream 3 (16..21); 8.x: all.
+func typeLoadable(major int, t byte) bool {
+	switch {
+	case major == 0 || major >= 8:
+		return true
+	case major >= 7:
+		return t <= 21
+	case major >= 5:
+		return t <= 15
+	default:
+		return t <= 14
+	}
+}
+
+// sinceEntryStart counts the requests of the current entry that precede the one
+// being applied on this connection: the immediately preceding requests on the
+// same key, back to (not including) a PEXPIRE, which ends an entry.
+func (c *Conn) sinceEntryStart(key string) int64 {
+	n := int64(0)
+	hk := hx([]byte(key))
+	for i := len(c.Log) - 2; i >= 0; i-- { // Log[len-1] is the request being applied
+		f := strings.Fields(c.Log[i])
+		if len(f) < 2 || strings.EqualFold(f[0], "pexpire") {
+			break
+		}
+		k := f[1]
+		if strings.EqualFold(f[0], "xgroup") && len(f) > 2 {
+			k = f[2]
+		}
+		if k != hk {
+			break
+		}
+		n++
+	}
+	return n
+}
+
+func (t *Target) now() int64 {
+	if t.Now == nil {
+		return 0
+	}
+	return t.Now()
 }
 
 func NewTarget() *Target { return &Target{DBs: map[int]map[string]*Val{}} }
@@ -304,11 +364,14 @@ func wrongType() (interface{}, error) {
 // Do logs and interprets one request and returns the reply.
 func (c *Conn) Do(cmd string, args ...interface{}) (interface{}, error) {
 	c.T.mu.Lock()
-	defer c.T.mu.Unlock()
 	c.Log = append(c.Log, CanonCmd(cmd, args))
 	r, err := c.apply(strings.ToLower(cmd), args)
-	if err != nil && !strings.HasPrefix(err.Error(), "BUSYKEY") {
+	if err != nil && !strings.HasPrefix(err.Error(), "BUSYKEY") && !strings.Contains(err.Error(), "Bad data format") {
 		c.T.Errors = append(c.T.Errors, CanonCmd(cmd, args)+" => "+err.Error())
+	}
+	c.T.mu.Unlock()
+	if c.T.Tick != nil {
+		c.T.Tick() // outside the lock: the harness lets (virtual) time pass here
 	}
 	return r, err
 }
@@ -375,6 +438,7 @@ func (c *Conn) apply(cmd string, args []interface{}) (interface{}, error) {
 			return nil, RedisError("ERR value is not an integer or out of range")
 		}
 		v.TTL = n
+		v.ExpAt = c.T.now() - c.T.TickMs*c.sinceEntryStart(key(0)) + n
 		return int64(1), nil
 	case "restore":
 		if len(args) < 3 {
@@ -403,7 +467,14 @@ func (c *Conn) apply(cmd string, args []interface{}) (interface{}, error) {
 		if err != nil || n < 0 {
 			return nil, RedisError("ERR Invalid TTL value, must be >= 0")
 		}
+		if len(nv.Payload) < 11 || !typeLoadable(c.T.Major, nv.Payload[0]) {
+			c.T.BadFormat++
+			return nil, RedisError("ERR Bad data format")
+		}
 		nv.TTL = n
+		if n != 0 {
+			nv.ExpAt = c.T.now() - c.T.TickMs*c.sinceEntryStart(key(0)) + n
+		}
 		d[key(0)] = nv
 		return "OK", nil
 	case "set":
